@@ -243,11 +243,13 @@ func frameCheck(m *ciscomodel.Dev, want []*ciscomodel.Entry) error {
 
 func (x *approvex) runFrame(fs *frameSpace, base int64) {
 	ios := fs.model == "IOS"
+	var mine int64
 	for i := int64(0); i < fs.n; i++ {
 		if !x.ctx.Mine(base + i) {
 			continue
 		}
-		if i%256 == 0 && x.ctx.Expired() {
+		mine++
+		if mine%256 == 0 && x.ctx.Expired() {
 			x.res.Incomplete = append(x.res.Incomplete, fmt.Sprintf("deadline in frame space %s at %d/%d", fs.name, i, fs.n))
 			return
 		}
